@@ -28,6 +28,8 @@ def frame_bytes(k, t):
         return fr(t)
     if k == "okws":                       # insignificant whitespace in front of the document
         return b"\n " + fr(t)
+    if k == "okcont":                     # a reply that says more will follow for the same call
+        return CONT + t.encode() + SUFFIX
     if k == "okpretty":                   # tabs and line breaks between the tokens (pretty-printed by the peer)
         return PRETTY + t.encode() + SUFFIX
     if k == "badutf8":                    # not valid UTF-8: must be a decode error
@@ -35,16 +37,19 @@ def frame_bytes(k, t):
     return OTHER[k]
 
 
+CONT = b'{"continues":true,"parameters":{"note":"'
 PRETTY = b'{\n\t"parameters":\t{\n\t\t"note":\t"'
 
 
 def note_off(k):
     if k == "okpretty":
         return len(PRETTY)
+    if k == "okcont":
+        return len(CONT)
     return len(PREFIX) + (2 if k == "okws" else 0)
 
 
-EXPECT = {"ok": "ok", "okws": "ok", "okpretty": "ok", "merr": "merr", "bad": "err:json", "badutf8": "err:json"}
+EXPECT = {"ok": "ok", "okws": "ok", "okpretty": "ok", "okcont": "ok", "merr": "merr", "bad": "err:json", "badutf8": "err:json"}
 
 
 OTHER = {
@@ -66,8 +71,11 @@ def gen_cases(ck, limit, step):
         c = {"id": len(cases), "n": len(frames) - pre, "pre": pre, "frames": frames, "events": events, "tag": tag}
         if take is not None:
             c["take"] = take
-        if owed:
-            c["calls"] = len(frames) - pre + owed
+        nc = sum(1 for k, t in frames[pre:] if k == "okcont")
+        if owed or nc:
+            # a "continues" reply does not finish its call: the chain has one call per final reply
+            c["calls"] = len(frames) - pre - nc + owed
+            c["items"] = len(frames) - pre + 2
         cases.append(c)
 
     def chunk(stream, mode):
@@ -118,6 +126,29 @@ def gen_cases(ck, limit, step):
                 assert len(wire(frames)) == total
                 if total < limit:
                     add(frames, chunk(wire(frames), "one_read"), "burst_on_growth_step")
+                    # the same burst with replies that say "continues" (17 bytes longer each): the burst ends a
+                    # little before / after the step
+                    fc = [("okcont" if j < len(frames) - 1 and rng.random() < 0.7 else "ok", t) for j, (k_, t) in enumerate(frames)]
+                    if any(k_ == "okcont" for k_, t in fc) and len(wire(fc)) < limit:
+                        add(fc, chunk(wire(fc), "one_read"), "burst_with_continuing_replies")
+    # (b2) bursts with continuing replies that leave 0..70 bytes of the buffer free
+    for k in range(1, 4 if quick else 10):
+        for free in (0, 1, 2, 17, 33, 63, 64, 65, 70):
+            total = k * step - free
+            n = rng.randrange(3, 6)
+            kinds = ["okcont" if rng.random() < 0.6 else "ok" for _ in range(n - 1)] + ["ok"]
+            if "okcont" not in kinds:
+                kinds[0] = "okcont"
+            texts = [note(rng, rng.randrange(1, 12)) for _ in range(n)]
+            frs = list(zip(kinds, texts))
+            rest = total - len(wire(frs))
+            if rest < 0:
+                continue
+            j = rng.randrange(0, n)
+            frs[j] = (frs[j][0], frs[j][1] + note(rng, rest))
+            assert len(wire(frs)) == total
+            if total < limit:
+                add(frs, chunk(wire(frs), "one_read"), "burst_with_continuing_replies")
     # (c) a later reply in the same burst that is an error / undecodable / service error
     for i in range(60 if quick else 600):
         n = rng.randrange(2, 6)
@@ -231,8 +262,8 @@ def render(c, r, step, limit):
     for s in r["steps"]:
         flags.append("true" if s["data_reads"] > prev else "false")
         prev = s["data_reads"]
-    mask = ["true" if (k in ("ok", "okws", "okpretty") and i >= c["pre"]) else "false" for i, (k, t) in enumerate(c["frames"])]
-    notes = [coq_bytes(t.encode()) if k in ("ok", "okws", "okpretty") else "[]" for k, t in c["frames"]]
+    mask = ["true" if (k in ("ok", "okws", "okpretty", "okcont") and i >= c["pre"]) else "false" for i, (k, t) in enumerate(c["frames"])]
+    notes = [coq_bytes(t.encode()) if k in ("ok", "okws", "okpretty", "okcont") else "[]" for k, t in c["frames"]]
     offs = ["%d%%nat" % note_off(k) for k, t in c["frames"]]
     return ("{| bc_step := %d; bc_limit := %d; bc_events := %s; bc_n := %d%%nat; bc_offs := %s; "
             "bc_suf := %d%%nat; bc_notes := %s; bc_mask := %s; bc_views := %s; bc_reads := %s |}") % (
